@@ -16,6 +16,7 @@ import tempfile
 
 VERIF = os.path.dirname(os.path.dirname(os.path.abspath(__file__)))
 REPO = os.environ.get("VERIF_REPO", "/repo")
+os.environ["VERIF_NO_SELFVALIDATION"] = "1"  # the thorough tier's own variant run is not wanted here
 
 
 def main(argv):
